@@ -523,7 +523,7 @@ fn scm_loop_body<I: InputIndexer, F: Fn(u32) -> bool>(
     core::mem::forget(cr);
 }
 
-// @verif props=C01,C03,C06,C15 tier=quick qprops=C01 timeout=2400 unwind=7 bound="Loop1CharBody{min<=max<=4} over Char(c), c any u32 <= 0x10FFFF incl. surrogates; haystack <= 3 symbolic scalars; forward, greedy" funcs="MatchAttempter::run_scm_loop,with_scm_loop_impl,with_scm_compute_max,run_scm_loop_impl,compute_max_pos,try_backtrack(GreedyLoop1Char,NonGreedyLoop1Char),scm::Char"
+// @verif props=C01,C03,C06,C15 tier=thorough timeout=2400 unwind=7 bound="Loop1CharBody{min<=max<=4} over Char(c), c any u32 <= 0x10FFFF incl. surrogates; haystack <= 3 symbolic scalars; forward, greedy" funcs="MatchAttempter::run_scm_loop,with_scm_loop_impl,with_scm_compute_max,run_scm_loop_impl,compute_max_pos,try_backtrack(GreedyLoop1Char,NonGreedyLoop1Char),scm::Char"
 #[kani::proof]
 #[kani::unwind(7)]
 fn c01_scm_loop_char_utf8_fwd_greedy() {
@@ -562,7 +562,7 @@ fn c01_scm_loop_char_utf8_bwd_greedy() {
     kani::cover!(c >= 0xD800 && c <= 0xDFFF, "pattern character is a surrogate (cannot occur in UTF-8 text)");
 }
 
-// @verif props=C01,C03,C06,C15 tier=quick qprops=C03 timeout=2400 unwind=7 bound="Loop1CharBody{min<=max<=4} over Char(c), c any u32 <= 0x10FFFF incl. surrogates; haystack <= 3 symbolic scalars; backward, lazy" funcs="MatchAttempter::run_scm_loop,with_scm_loop_impl,with_scm_compute_max,run_scm_loop_impl,compute_max_pos,try_backtrack(GreedyLoop1Char,NonGreedyLoop1Char),scm::Char"
+// @verif props=C01,C03,C06,C15 tier=thorough timeout=2400 unwind=7 bound="Loop1CharBody{min<=max<=4} over Char(c), c any u32 <= 0x10FFFF incl. surrogates; haystack <= 3 symbolic scalars; backward, lazy" funcs="MatchAttempter::run_scm_loop,with_scm_loop_impl,with_scm_compute_max,run_scm_loop_impl,compute_max_pos,try_backtrack(GreedyLoop1Char,NonGreedyLoop1Char),scm::Char"
 #[kani::proof]
 #[kani::unwind(7)]
 fn c01_scm_loop_char_utf8_bwd_lazy() {
@@ -627,7 +627,7 @@ fn c13_scm_loop_char_ascii_bwd_lazy() {
     kani::cover!(c > 0xFF, "pattern character not representable as a byte");
 }
 
-// @verif props=C01,C06 tier=quick qprops=C06 timeout=2400 unwind=7 bound="Loop1CharBody over MatchAnyExceptLineTerminator; haystack <= 3 symbolic scalars; forward, greedy" funcs="run_scm_loop,scm::MatchAnyExceptLineTerminator"
+// @verif props=C01,C06 tier=thorough timeout=2400 unwind=7 bound="Loop1CharBody over MatchAnyExceptLineTerminator; haystack <= 3 symbolic scalars; forward, greedy" funcs="run_scm_loop,scm::MatchAnyExceptLineTerminator"
 #[kani::proof]
 #[kani::unwind(7)]
 fn c01_scm_loop_dot_utf8_fwd_greedy() {
@@ -697,7 +697,7 @@ fn c01_scm_loop_bracket_utf8_fwd_lazy() {
     scm_loop_body(input, &hy, Insn::Bracket(0), vec![bc], |d| (lo <= d && d <= hi) != invert, true, false);
 }
 
-// @verif props=C01,C06,C12 tier=quick qprops=C12 timeout=2400 unwind=9 bound="Loop1CharBody over Bracket{invert symbolic, one symbolic interval}; haystack <= 3 symbolic scalars; backward, greedy" funcs="run_scm_loop,scm::Bracket,CharProperties::bracket,CodePointSet::contains"
+// @verif props=C01,C06,C12 tier=thorough timeout=2400 unwind=9 bound="Loop1CharBody over Bracket{invert symbolic, one symbolic interval}; haystack <= 3 symbolic scalars; backward, greedy" funcs="run_scm_loop,scm::Bracket,CharProperties::bracket,CodePointSet::contains"
 #[kani::proof]
 #[kani::unwind(9)]
 fn c01_scm_loop_bracket_utf8_bwd_greedy() {
@@ -1105,7 +1105,7 @@ fn c09_iter_backtrack_anchored_n2() {
     core::mem::forget(cr);
 }
 
-// @verif props=C09,C13 tier=quick qprops=C09 timeout=2400 mem=16 unwind=7 bound="as c09_iter_backtrack_utf8 through AsciiInput on <= 3 symbolic ASCII bytes" funcs="BacktrackExecutor<AsciiInput>::next_match,AsciiInput::find_bytes,next_right_pos"
+// @verif props=C09,C13 tier=thorough timeout=2400 mem=16 unwind=7 bound="as c09_iter_backtrack_utf8 through AsciiInput on <= 3 symbolic ASCII bytes" funcs="BacktrackExecutor<AsciiInput>::next_match,AsciiInput::find_bytes,next_right_pos"
 // @verif stubs="MatchAttempter::try_at_pos -> table"
 #[kani::proof]
 #[kani::unwind(7)]
